@@ -655,6 +655,31 @@ func C11() *kit.Spec {
 				}
 				c.Count("control.ok."+path, 1)
 			}
+			// the two largest sizes can carry one binary-shift run of up to 2078
+			// bytes (the long form's 11-bit length): a short prefix and one such run
+			if !j.size.compact && j.size.layers >= 31 {
+				n := r.Range(1890, 2078)
+				if r.Chance(1, 3) {
+					n = []int{1914, 1915, 2047, 2078}[r.Intn(4)]
+				}
+				var txt []int
+				for _, ch := range "ID " {
+					txt = append(txt, int(ch))
+				}
+				for i := 0; i < n; i++ {
+					txt = append(txt, 128+r.Intn(128))
+				}
+				lt := &Trace11{Compact: false, Layers: j.size.layers, Text: txt, EncSeed: r.Uint64() >> 11, Path: "decoder"}
+				if build11(lt, func(string) {}) != nil {
+					probe("probe.binary_shift_run_of_1890_to_2078_bytes")
+					c.Eval(kit.HashJSON(lt), false)
+					c.Steps(1)
+					if _, f := exec11(lt, probe); f != nil {
+						report11(c, lt, f, false)
+						return
+					}
+				}
+			}
 			// instance-reuse history: the same Decoder / AztecReader first decodes
 			// a symbol of the sibling family with the same layer count (or, for
 			// more than 4 layers, of another size), then this one
